@@ -158,23 +158,29 @@ class IH5MFRecord(IH5Record):
         """Load and check the latest manifest (helper for `_open`)."""
         cls, ret = type(self), self
 
+        # the latest manifest belongs to the latest committed container
+        # (an uncommitted patch on top of it has no manifest yet)
+        idx = -1
+        if len(ret._files) > 1 and ret._ublock(-1).hdf5_hashsum is None:
+            idx = -2
+
         # if not given explicitly, infer correct manifest filename
         # based on logically latest container (they are sorted after parent init)
         if manifest_file is None:
-            manifest_file = cls._manifest_filepath(ret._files[-1].filename)
+            manifest_file = cls._manifest_filepath(ret._files[idx].filename)
 
         # for latest container, check linked manifest (if any) against given/inferred one
-        ub = ret._ublock(-1)
+        ub = ret._ublock(idx)
         ubext = IH5UBExtManifest.get(ub)
         if ubext is not None:
             if not manifest_file.is_file():
                 msg = f"Manifest file {manifest_file} does not exist, cannot open!"
-                raise ValueError(f"{ret._files[-1].filename}: {msg}")
+                raise ValueError(f"{ret._files[idx].filename}: {msg}")
 
             chksum = hashsum_file(manifest_file)
             if ubext.manifest_hashsum != chksum:
                 msg = "Manifest has been modified, unexpected hashsum!"
-                raise ValueError(f"{ret._files[-1].filename}: {msg}")
+                raise ValueError(f"{ret._files[idx].filename}: {msg}")
 
             ret._manifest = IH5Manifest.parse_file(manifest_file)
             # NOTE: as long as we enforce checksum of manifest, this failure can't happen:
